@@ -73,6 +73,9 @@ class Worker:
 
     def check(self, prop, tier="quick", seed=None):
         e = dict(os.environ, FCV_REPO=self.repo)
+        # sensitivity runs measure the generated search: the saved corpus stays out unless asked for
+        if os.environ.get("FCV_WITH_CORPUS") != "1":
+            e["FCV_NO_CORPUS"] = "1"
         if self.threads:
             e["FCV_THREADS"] = str(self.threads)
         if seed is not None:
